@@ -1,19 +1,70 @@
 package main
 
 import (
+	"bytes"
+	"context"
 	"crypto/sha1"
 	"encoding/hex"
+	"encoding/json"
 	"hash/fnv"
+	"os"
+	"os/exec"
+	"runtime/debug"
 	"sort"
 	"strconv"
 	"strings"
+	"time"
 
 	gmsl "github.com/matrix-org/gomatrixserverlib"
+	"github.com/matrix-org/gomatrixserverlib/fclient"
 )
 
 func init() {
 	areas["stateres"] = Area{Gen: genStateRes, Exec: execStateRes}
 	areas["topo"] = Area{Gen: genTopo, Exec: execTopo}
+	// a child started by runIsolated: a runaway recursion should hit the stack limit quickly
+	if s := os.Getenv("VHARNESS_MAXSTACK"); s != "" {
+		if n, err := strconv.Atoi(s); err == nil && n > 0 {
+			debug.SetMaxStack(n)
+		}
+	}
+}
+
+// runIsolated executes ONE op line in a child `vharness exec` process with a stack limit, a memory limit and a timeout,
+// so that a fatal error of the Go runtime (stack overflow, out of memory: no recover() catches those) or a loop that
+// never ends is an OUTCOME of the op (`panic:fatal-stack-overflow`, `panic:fatal-out-of-memory`, `panic:timeout`)
+// instead of the death of the harness.  A pure function of the op line (up to the timeout).
+func runIsolated(area, op string, args []string) string {
+	exe, err := os.Executable()
+	if err != nil {
+		return "err:no-executable"
+	}
+	ctx, cancel := context.WithTimeout(context.Background(), 5*time.Second)
+	defer cancel()
+	cmd := exec.CommandContext(ctx, exe, "exec")
+	cmd.Env = append(os.Environ(), "VHARNESS_MAXSTACK=33554432", "GOMEMLIMIT=1GiB", "GOTRACEBACK=single")
+	cmd.Stdin = strings.NewReader(area + "." + op + "\t" + strings.Join(args, "\t") + "\n")
+	var stdout, stderr bytes.Buffer
+	cmd.Stdout, cmd.Stderr = &stdout, &stderr
+	runErr := cmd.Run()
+	if ctx.Err() == context.DeadlineExceeded {
+		return "panic:timeout"
+	}
+	if out := stdout.String(); runErr == nil && strings.HasSuffix(out, "\n") && strings.Count(out, "\n") == 1 {
+		return strings.TrimSuffix(out, "\n") // (the empty line is an outcome: the empty resolved state)
+	}
+	msg := stderr.String()
+	switch {
+	case strings.Contains(msg, "stack overflow") || strings.Contains(msg, "goroutine stack exceeds"):
+		return "panic:fatal-stack-overflow"
+	case strings.Contains(msg, "out of memory"):
+		return "panic:fatal-out-of-memory"
+	}
+	first := msg
+	if i := strings.IndexByte(first, '\n'); i >= 0 {
+		first = first[:i]
+	}
+	return "panic:fatal:" + oneLine(first)
 }
 
 func idxList(s string) []int {
@@ -70,9 +121,37 @@ func shuffled[T any](r *Rng, xs []T) []T {
 // The resolution is run on the given order and on 4 permuted presentations (sets, events inside sets, auth list with
 // duplicated entries); the outcome is the sorted result ID list, or "nondet:" + the differing results.
 func execStateRes(op string, args []string) string {
+	if op == "resolve_cyc" || op == "resolve_old_cyc" {
+		// possibly cyclic auth_events (room versions 1 and 2: the sender chooses event IDs): run in a child process
+		return runIsolated("stateres", strings.TrimSuffix(op, "_cyc"), args)
+	}
 	ver := args[0]
 	if op == "resolve_props" {
 		return "ok" // the driver evaluates the result predicates on the implementation's answer carried in the op
+	}
+	if op == "resolve_twice" {
+		// <ver> <sets> <auth> <rej> <shas> <n> <event A>*n <event B>*n : history A and a history B that re-uses A's event
+		// IDs with other contents (possible wherever the sender chooses the IDs: another room, an equivocating server),
+		// resolved in ONE process in the order B, A, B, A.  "On every run of the process" (C11): the two runs of A must
+		// agree with each other, and with what A resolves to on its own (the driver's answer) — whatever ran before.
+		// (B goes first so that a process-wide cache that keeps the FIRST content seen under an ID is filled from B even when
+		// the op is replayed alone in a fresh process.)
+		// Outcome: <first result of A>|same  or  <first result of A>|differs:<second result of A>
+		n, err := strconv.Atoi(args[5])
+		if err != nil || len(args) != 6+2*n {
+			return "bad-op"
+		}
+		head := args[:5]
+		runA := func() string { return execStateRes("resolve", append(append([]string{}, head...), args[6:6+n]...)) }
+		runB := func() string { return execStateRes("resolve", append(append([]string{}, head...), args[6+n:]...)) }
+		_ = runB()
+		a := runA()
+		_ = runB()
+		a2 := runA()
+		if a == a2 {
+			return a + "|same"
+		}
+		return a + "|differs:" + a2
 	}
 	var evs []gmsl.PDU
 	for _, a := range args[5:] {
@@ -293,16 +372,514 @@ func (h *History) resolveArgs(r *Rng, sets [][]*Ev) []string {
 
 var stateResVersions = []string{"1", "2", "3", "6", "9", "10", "11", "12", "org.matrix.hydra.11", "org.matrix.msc3787"}
 
+// setAuth rebuilds event e (same ID, same fields) with the given auth_events.  Only for event format 1, where the ID
+// is a member of the event and not a hash of it.  The *Ev is updated in place, so every state map / list that holds it
+// sees the new event.
+func (h *History) setAuth(e *Ev, auth []string) bool {
+	var m map[string]interface{}
+	if err := json.Unmarshal(e.JSON, &m); err != nil {
+		return false
+	}
+	m["auth_events"] = h.G.refs(auth)
+	raw, err := json.Marshal(m)
+	if err != nil {
+		return false
+	}
+	cj, err := gmsl.CanonicalJSON(raw)
+	if err != nil {
+		return false
+	}
+	pdu, err := gmsl.MustGetRoomVersion(gmsl.RoomVersion(h.G.Ver)).NewEventFromTrustedJSONWithEventID(e.ID, cj, false)
+	if err != nil {
+		return false
+	}
+	e.PDU, e.JSON = pdu, cj
+	return true
+}
+
+// addForeignTwins: 1..2 events get, next to one of their auth events, a TWIN of it from another room (same type, state key,
+// sender, content; other room ID and event ID), listed before or after it.  Where state resolution falls back to the
+// event's own auth events, `AddEvent` is called for both: the later one occupies the slot and BOTH room IDs are recorded
+// in the provider, so a checker that asks `Valid()` refuses the event.
+func (h *History) addForeignTwins(r *Rng) int {
+	n := 0
+	// the fallback is used for the slots the partial state does not hold yet when an event is checked: control events
+	// (checked first) whose sender's membership is itself conflicted, and nearly every slot under v2.1 (which starts from
+	// the empty state) — so prefer power-levels / join-rules / membership-of-another-user events, and their member slots
+	var control []*Ev
+	for _, e := range h.All {
+		switch e.PDU.Type() {
+		case "m.room.power_levels", "m.room.join_rules":
+			control = append(control, e)
+		case "m.room.member":
+			if sk := e.PDU.StateKey(); sk != nil && *sk != string(e.PDU.SenderID()) {
+				control = append(control, e)
+			}
+		}
+	}
+	for k := 0; k < 1+r.Intn(3); k++ {
+		e := Pick(r, h.All)
+		if len(control) > 0 && r.Chance(75) {
+			e = Pick(r, control)
+		}
+		auth := e.PDU.AuthEventIDs()
+		if len(auth) == 0 {
+			continue
+		}
+		ai := r.Intn(len(auth))
+		if r.Chance(60) {
+			// prefer a membership auth event
+			for try := 0; try < 4; try++ {
+				if x := h.ByID[auth[ai]]; x != nil && x.PDU.Type() == "m.room.member" {
+					break
+				}
+				ai = r.Intn(len(auth))
+			}
+		}
+		a := h.ByID[auth[ai]]
+		if a == nil {
+			continue
+		}
+		var m map[string]interface{}
+		if json.Unmarshal(a.JSON, &m) != nil {
+			continue
+		}
+		room := "!elsewhere:hs9"
+		if h.G.v3 {
+			room = "!" + r.id43()
+		}
+		m["room_id"] = room
+		id := h.G.nextID("hs9")
+		if h.G.fmtV == 1 {
+			m["event_id"] = id
+		}
+		raw, err := json.Marshal(m)
+		if err != nil {
+			continue
+		}
+		cj, err := gmsl.CanonicalJSON(raw)
+		if err != nil {
+			continue
+		}
+		pdu, err := gmsl.MustGetRoomVersion(gmsl.RoomVersion(h.G.Ver)).NewEventFromTrustedJSONWithEventID(id, cj, false)
+		if err != nil {
+			continue
+		}
+		twin := &Ev{PDU: pdu, ID: id, JSON: cj}
+		var na []string
+		for j, x := range auth {
+			if j == ai && r.Bool() {
+				na = append(na, id, x)
+			} else if j == ai {
+				na = append(na, x, id)
+			} else {
+				na = append(na, x)
+			}
+		}
+		if !h.setAuth(e, na) {
+			continue
+		}
+		h.All = append(h.All, twin)
+		h.ByID[id] = twin
+		n++
+	}
+	return n
+}
+
+// makeCyclic introduces 1..3 cycles into the auth graph of a format-1 history: a power-levels event citing itself, two
+// power-levels events citing each other (the later one already cites the earlier), the create event citing a power-levels
+// event (which cites the create event), a self-citing / mutually citing pair of non-control events (topic, name, self
+// joins), a join-rules event citing itself.  Returns the kinds introduced.
+func (h *History) makeCyclic(r *Rng) []string {
+	byType := map[string][]*Ev{}
+	for _, e := range h.All {
+		if e.PDU.StateKey() != nil {
+			byType[e.PDU.Type()] = append(byType[e.PDU.Type()], e)
+		}
+	}
+	pls, jrs := byType["m.room.power_levels"], byType["m.room.join_rules"]
+	var others []*Ev
+	for _, t := range []string{"m.room.name", "m.room.topic", "x.custom", "m.room.member"} {
+		others = append(others, byType[t]...)
+	}
+	var kinds []string
+	cite := func(e *Ev, ids ...string) bool {
+		auth := append(append([]string{}, e.PDU.AuthEventIDs()...), ids...)
+		if r.Chance(30) {
+			auth = shuffled(r, auth)
+		}
+		return h.setAuth(e, auth)
+	}
+	for k := 0; k < 1+r.Intn(3); k++ {
+		switch r.Intn(7) {
+		case 0, 1: // power-levels event citing itself
+			if len(pls) > 0 {
+				if e := Pick(r, pls); cite(e, e.ID) {
+					kinds = append(kinds, "pl-self")
+				}
+			}
+		case 2: // two power-levels events citing each other (directly, or the earlier cites a later descendant)
+			if len(pls) > 1 {
+				i := r.Intn(len(pls) - 1)
+				j := i + 1 + r.Intn(len(pls)-i-1)
+				a, b := pls[i], pls[j]
+				if cite(a, b.ID) && cite(b, a.ID) {
+					kinds = append(kinds, "pl-mutual")
+				}
+			}
+		case 3: // create <-> power levels
+			if len(pls) > 0 && h.G.Create != nil {
+				if c := h.ByID[h.G.Create.ID]; c != nil && cite(c, Pick(r, pls).ID) {
+					kinds = append(kinds, "create-pl")
+				}
+			}
+		case 4: // a non-control event citing itself
+			if len(others) > 0 {
+				if e := Pick(r, others); cite(e, e.ID) {
+					kinds = append(kinds, "other-self")
+				}
+			}
+		case 5: // two non-control events citing each other
+			if len(others) > 1 {
+				a, b := Pick(r, others), Pick(r, others)
+				if a != b && cite(a, b.ID) && cite(b, a.ID) {
+					kinds = append(kinds, "other-mutual")
+				}
+			}
+		case 6: // join rules citing itself / a power-levels event citing a later join-rules event
+			if len(jrs) > 0 {
+				e := Pick(r, jrs)
+				if r.Bool() && len(pls) > 0 {
+					if cite(pls[0], e.ID) {
+						kinds = append(kinds, "pl-jr")
+					}
+				} else if cite(e, e.ID) {
+					kinds = append(kinds, "jr-self")
+				}
+			}
+		}
+	}
+	return kinds
+}
+
+// genStateResCyclic: room versions 1 and 2 (event format 1: event IDs are chosen by the sender, so auth_events can be
+// cyclic).  Every op runs in a child process (resolve_cyc / resolve_old_cyc), followed by the C11 result predicates on
+// the implementation's answer.
+func genStateResCyclic(o *Out, tier string, r *Rng) {
+	n := 14
+	if tier == "thorough" {
+		n = 60
+	}
+	for i := 0; i < n; i++ {
+		ver := Pick(r, []string{"2", "2", "2", "1"})
+		h := GenHistory(r, ver, 6+r.Intn(24))
+		if h == nil {
+			continue
+		}
+		kinds := h.makeCyclic(r)
+		if len(kinds) == 0 {
+			continue
+		}
+		for _, k := range kinds {
+			o.Count("cyclic." + k)
+		}
+		sets := h.pickSets(r)
+		args := h.resolveArgs(r, sets)
+		res := o.Do("resolve_cyc", args...)
+		if strings.HasPrefix(res, "panic:") {
+			o.Count("cyclic.outcome." + res)
+		} else {
+			o.Count("cyclic.outcome.returned")
+		}
+		pargs := append([]string{args[0], "new:" + hx([]byte(res))}, args[1:]...)
+		o.Do("resolve_props", pargs...)
+		if r.Chance(50) {
+			res2 := o.Do("resolve_old_cyc", args...)
+			pargs2 := append([]string{args[0], "old:" + hx([]byte(res2))}, args[1:]...)
+			o.Do("resolve_props", pargs2...)
+		}
+	}
+}
+
+// otherContents: the same event (same ID, same auth / prev events) carrying other power levels — the ranking of the users
+// in `users` inverted, users_default mirrored (100 - level).  Only event format 1 (the ID is a member of
+// the event, not a hash of it).  Returns the event argument unchanged for anything but a power-levels event.
+func otherContents(ver, arg string) string {
+	i := strings.IndexByte(arg, ':')
+	id, js := string(unhx(arg[:i])), unhx(arg[i+1:])
+	var m map[string]interface{}
+	if json.Unmarshal(js, &m) != nil || m["type"] != "m.room.power_levels" {
+		return arg
+	}
+	c, _ := m["content"].(map[string]interface{})
+	if c == nil {
+		return arg
+	}
+	if u, ok := c["users"].(map[string]interface{}); ok && len(u) > 1 {
+		// invert the ranking of the users: the weakest gets the highest level present, and so on
+		type nl struct {
+			name string
+			lvl  float64
+		}
+		var l []nl
+		for k, v := range u {
+			f, isNum := v.(float64)
+			if !isNum {
+				return arg
+			}
+			l = append(l, nl{k, f})
+		}
+		sort.Slice(l, func(i, j int) bool { return l[i].lvl < l[j].lvl || (l[i].lvl == l[j].lvl && l[i].name < l[j].name) })
+		nu := map[string]interface{}{}
+		for k := range l {
+			nu[l[k].name] = int64(l[len(l)-1-k].lvl)
+		}
+		c["users"] = nu
+	}
+	if d, ok := c["users_default"].(float64); ok {
+		c["users_default"] = 100 - int64(d)
+	}
+	raw, err := json.Marshal(m)
+	if err != nil {
+		return arg
+	}
+	cj, err := gmsl.CanonicalJSON(raw)
+	if err != nil {
+		return arg
+	}
+	if _, err := parseEvArg(ver, hx([]byte(id))+":"+hx(cj)); err != nil {
+		return arg
+	}
+	return hx([]byte(id)) + ":" + hx(cj)
+}
+
+func twiceArgs(args []string) []string {
+	evs := args[5:]
+	out := append(append([]string{}, args[:5]...), strconv.Itoa(len(evs)))
+	out = append(out, evs...)
+	for _, e := range evs {
+		out = append(out, otherContents(args[0], e))
+	}
+	return out
+}
+
+// twiceTemplate: a room-version-2 room in which the power ORDER of two conflicting control events decides the result:
+// $p0 gives u1 level hi and u2 level lo; u1 and u2 each send a power-levels change citing $p0 (conflict).  The other
+// history re-uses the IDs with the two levels swapped.  Variations: which user is stronger, timestamps, a third set.
+func twiceTemplate(r *Rng) []string {
+	g := NewRoomGen(r, "2")
+	h := &History{G: g, ByID: map[string]*Ev{}, Rejected: map[string]bool{}}
+	// home-server names (hence the event IDs `$e<n>:<server>`) differ from op to op: what an op observes does not depend
+	// on the ops before it
+	sfx := strconv.Itoa(r.Intn(1 << 30))
+	u := []string{"@creator:c" + sfx, "@alice:a" + sfx, "@bob:b" + sfx}
+	hi, lo := int64(60+r.Intn(40)), int64(50)
+	if r.Bool() {
+		u[1], u[2] = u[2], u[1]
+	}
+	create := g.MkCreate(u[0], map[string]interface{}{"room_version": "2", "creator": u[0]})
+	if create == nil {
+		return nil
+	}
+	h.All = append(h.All, create)
+	h.ByID[create.ID] = create
+	root := &Branch{State: map[gmsl.StateKeyTuple]*Ev{{EventType: "m.room.create", StateKey: ""}: create}, Tip: create.ID, Depth: 1}
+	ts := 10
+	send := func(b *Branch, typ, sender, sk string, content interface{}) *Ev {
+		ts += r.Intn(2) // equal timestamps happen: the event ID then decides
+		return h.Force(b, typ, sender, sk, content, ts)
+	}
+	for _, x := range u {
+		send(root, "m.room.member", x, x, map[string]interface{}{"membership": "join"})
+	}
+	pl := func(extra map[string]interface{}) map[string]interface{} {
+		m := map[string]interface{}{"users": map[string]interface{}{u[0]: 100, u[1]: hi, u[2]: lo}, "users_default": 0, "state_default": 50,
+			"events_default": 0, "ban": 50, "kick": 50, "invite": 0}
+		for k, v := range extra {
+			m[k] = v
+		}
+		return m
+	}
+	send(root, "m.room.power_levels", u[0], "", pl(nil))
+	b1, b2 := root.clone(), root.clone()
+	send(b1, "m.room.power_levels", u[1], "", pl(map[string]interface{}{"invite": 10}))
+	send(b2, "m.room.power_levels", u[2], "", pl(map[string]interface{}{"invite": 20}))
+	h.Branches = []*Branch{b1, b2}
+	var sets [][]*Ev
+	for _, b := range []*Branch{b1, b2} {
+		var set []*Ev
+		for _, e := range b.State {
+			set = append(set, e)
+		}
+		sort.Slice(set, func(i, j int) bool { return set[i].ID < set[j].ID })
+		sets = append(sets, set)
+	}
+	if r.Chance(30) {
+		sets = append(sets, sets[r.Intn(2)])
+	}
+	return h.resolveArgs(r, sets)
+}
+
+// twinTemplate: the fallback to an event's own auth events, with two matches for one slot from DIFFERENT rooms.
+// @bob's membership is conflicted between the two state sets (a re-join on one branch, a leave on the other) and his
+// join-rules change — a control event, checked before the memberships are resolved — cites his older join, which is
+// in no state set; that auth event gets a twin from another room (before or after it).  `AddEvent` is called for both.
+func twinTemplate(r *Rng, ver string) []string {
+	g := NewRoomGen(r, ver)
+	h := &History{G: g, ByID: map[string]*Ev{}, Rejected: map[string]bool{}}
+	verImpl := gmsl.MustGetRoomVersion(gmsl.RoomVersion(ver))
+	a, b := "@creator:hs1", "@bob:hs2"
+	cc := map[string]interface{}{"room_version": ver}
+	if !verImpl.PrivilegedCreators() {
+		cc["creator"] = a
+	}
+	create := g.MkCreate(a, cc)
+	if create == nil {
+		return nil
+	}
+	h.All = append(h.All, create)
+	h.ByID[create.ID] = create
+	root := &Branch{State: map[gmsl.StateKeyTuple]*Ev{{EventType: "m.room.create", StateKey: ""}: create}, Tip: create.ID, Depth: 1}
+	ts := 10
+	send := func(br *Branch, typ, sender, sk string, content interface{}) *Ev {
+		ts += 1 + r.Intn(2)
+		return h.Force(br, typ, sender, sk, content, ts)
+	}
+	send(root, "m.room.member", a, a, map[string]interface{}{"membership": "join"})
+	users := map[string]interface{}{b: 50}
+	if !verImpl.PrivilegedCreators() {
+		users[a] = 100
+	}
+	send(root, "m.room.power_levels", a, "", map[string]interface{}{"users": users, "users_default": 0, "state_default": 50, "events_default": 0, "ban": 50, "kick": 50, "invite": 0})
+	send(root, "m.room.join_rules", a, "", map[string]interface{}{"join_rule": "public"})
+	mb0 := send(root, "m.room.member", b, b, map[string]interface{}{"membership": "join"})
+	b1, b2 := root.clone(), root.clone()
+	j1 := send(b1, "m.room.join_rules", b, "", map[string]interface{}{"join_rule": Pick(r, []string{"invite", "knock"})})
+	send(b1, "m.room.member", b, b, map[string]interface{}{"membership": "join", "displayname": "bob"})
+	send(b2, "m.room.member", b, b, map[string]interface{}{"membership": "leave"})
+	if mb0 == nil || j1 == nil {
+		return nil
+	}
+	// the twin of bob's older join, from another room, next to it in the auth events of his join-rules change
+	var m map[string]interface{}
+	if json.Unmarshal(mb0.JSON, &m) != nil {
+		return nil
+	}
+	m["room_id"] = "!elsewhere:hs9"
+	if g.v3 {
+		m["room_id"] = "!" + r.id43()
+	}
+	id := g.nextID("hs9")
+	if g.fmtV == 1 {
+		m["event_id"] = id
+	}
+	raw, _ := json.Marshal(m)
+	cj, err := gmsl.CanonicalJSON(raw)
+	if err != nil {
+		return nil
+	}
+	pdu, err := verImpl.NewEventFromTrustedJSONWithEventID(id, cj, false)
+	if err != nil {
+		return nil
+	}
+	twin := &Ev{PDU: pdu, ID: id, JSON: cj}
+	var na []string
+	for _, x := range j1.PDU.AuthEventIDs() {
+		if x == mb0.ID && r.Bool() {
+			na = append(na, id, x)
+		} else if x == mb0.ID {
+			na = append(na, x, id)
+		} else {
+			na = append(na, x)
+		}
+	}
+	if !h.setAuth(j1, na) {
+		return nil
+	}
+	h.All = append(h.All, twin)
+	h.ByID[id] = twin
+	h.Branches = []*Branch{b1, b2}
+	var sets [][]*Ev
+	for _, br := range h.Branches {
+		var set []*Ev
+		for _, e := range br.State {
+			set = append(set, e)
+		}
+		sort.Slice(set, func(i, j int) bool { return set[i].ID < set[j].ID })
+		sets = append(sets, set)
+	}
+	return h.resolveArgs(r, sets)
+}
+
+// genStateResTwice: "on every run of the process" — one op resolves history A around a history B that re-uses A's event IDs
+// with other power-levels contents (order B, A, B, A; room versions 1 and 2: the sender chooses the IDs).
+func genStateResTwice(o *Out, tier string, r *Rng) {
+	n := 12
+	if tier == "thorough" {
+		n = 300
+	}
+	for i := 0; i < n; i++ {
+		var args []string
+		if i%2 == 0 {
+			args = twiceTemplate(r)
+			o.Count("twice.template")
+		} else {
+			h := GenHistory(r, Pick(r, []string{"2", "2", "1"}), 6+r.Intn(24))
+			if h == nil {
+				continue
+			}
+			args = h.resolveArgs(r, h.pickSets(r))
+			o.Count("twice.history")
+		}
+		if args == nil {
+			continue
+		}
+		res := o.Do("resolve_twice", twiceArgs(args)...)
+		if !strings.HasSuffix(res, "|same") {
+			o.Count("twice.differs")
+		}
+	}
+}
+
 func genStateRes(o *Out, tier string, r *Rng) {
 	n := 250
 	if tier == "thorough" {
 		n = 6000
 	}
+	genStateResCyclic(o, tier, &Rng{s: r.Next()})
+	genStateResTwice(o, tier, &Rng{s: r.Next()})
+	{
+		// fallback to an event's own auth events with two matches for a slot, from different rooms
+		tr := &Rng{s: r.Next()}
+		k := 6
+		if tier == "thorough" {
+			k = 120
+		}
+		for i := 0; i < k; i++ {
+			ver := Pick(tr, []string{"2", "6", "10", "11", "12", "org.matrix.hydra.11"})
+			if args := twinTemplate(tr, ver); args != nil {
+				res := o.Do("resolve", args...)
+				o.Do("resolve_props", append([]string{args[0], "new:" + hx([]byte(res))}, args[1:]...)...)
+				o.Count("twin.template")
+			}
+		}
+	}
 	for i := 0; i < n; i++ {
 		ver := Pick(r, stateResVersions)
-		h := GenHistory(r, ver, 6+r.Intn(30))
+		odd := r.Chance(30)
+		h := GenHistoryOpt(r, ver, 6+r.Intn(30), odd)
 		if h == nil {
 			continue
+		}
+		if odd {
+			o.Count("history.odd-keys")
+		}
+		if r.Chance(25) {
+			// an auth event doubled by a twin from another room (matters where the resolver falls back to the event's own
+			// auth events: every match is added to the provider, and every match's room is recorded)
+			if h.addForeignTwins(r) > 0 {
+				o.Count("history.foreign-auth-twin")
+			}
 		}
 		for k := 0; k < 2; k++ {
 			sets := h.pickSets(r)
@@ -337,6 +914,31 @@ func genStateRes(o *Out, tier string, r *Rng) {
 func execTopo(op string, args []string) string {
 	if op == "order_props" {
 		return "ok"
+	}
+	if op == "linearise" {
+		// topo.linearise <ver> <state i.j.k> <auth i.j.k> <event>... -> IDs in the order LineariseStateResponse returns
+		ver := args[0]
+		var evs []gmsl.PDU
+		for _, a := range args[3:] {
+			e, err := parseEvArg(ver, a)
+			if err != nil {
+				return "err:construct"
+			}
+			evs = append(evs, e)
+		}
+		pick := func(s string) []gmsl.PDU {
+			var out []gmsl.PDU
+			for _, i := range idxList(s) {
+				out = append(out, evs[i])
+			}
+			return out
+		}
+		rs := fclient.RespState{StateEvents: gmsl.NewEventJSONsFromEvents(pick(args[1])), AuthEvents: gmsl.NewEventJSONsFromEvents(pick(args[2]))}
+		var ids []string
+		for _, e := range gmsl.LineariseStateResponse(gmsl.RoomVersion(ver), &rs) {
+			ids = append(ids, e.EventID())
+		}
+		return strings.Join(ids, ",")
 	}
 	if op != "order" {
 		return "bad-op"
@@ -400,5 +1002,37 @@ func genTopo(o *Out, tier string, r *Rng) {
 		res := o.Do("order", args...)
 		pargs := append([]string{args[0], hx([]byte(res))}, args[1:]...)
 		o.Do("order_props", pargs...)
+		// LineariseStateResponse (a /state response: state events + their auth chain, parsed as UNTRUSTED events, then ordered
+		// by auth events).  Only event format 1, where the generated event IDs survive the untrusted parse (for the hashed
+		// formats the parser recomputes the IDs and the references of these unsigned, unhashed test events dangle).
+		if (ver == "1" || ver == "2") && len(h.Branches) > 0 {
+			b := Pick(r, h.Branches)
+			pos := map[string]int{}
+			for j, e := range h.All {
+				pos[e.ID] = j
+			}
+			var st []*Ev
+			var stIdx, auIdx []int
+			for _, e := range b.State {
+				st = append(st, e)
+			}
+			sort.Slice(st, func(i, j int) bool { return st[i].ID < st[j].ID })
+			for _, e := range st {
+				stIdx = append(stIdx, pos[e.ID])
+			}
+			for _, a := range h.AuthClosure(st) {
+				auIdx = append(auIdx, pos[a.ID])
+			}
+			stIdx, auIdx = shuffled(r, stIdx), shuffled(r, auIdx)
+			largs := []string{ver, joinIdx(stIdx), joinIdx(auIdx)}
+			for _, e := range h.All {
+				largs = append(largs, e.Arg())
+			}
+			lres := o.Do("linearise", largs...)
+			// the ordering predicates on the implementation's answer: input = state events + auth events
+			lp := []string{ver, hx([]byte(lres)), "auth", joinIdx(append(append([]int{}, stIdx...), auIdx...))}
+			lp = append(lp, largs[3:]...)
+			o.Do("order_props", lp...)
+		}
 	}
 }
